@@ -11,8 +11,13 @@ package main
 //   conc fu                      every session acknowledged (201) by the last batch is updated and released;
 //                                  fu=<status/status,...> (each under a 10 s deadline; `hang` otherwise)
 //
+//   conc hammer <roles> <supiHex> <rounds>   loops of requests on one subscriber by several goroutines (conc_hammer.go)
+//
 // The requests of a batch are prepared (bodies marshalled) before the barrier opens; only the HTTP exchange
 // itself runs concurrently.
+//
+// generator modes: "" (C09: everything), newsupi, stale, events (batches with one-time events), hammer-refs,
+// hammer-lookup, hammer-events (only the hammer lines of that family)
 
 import (
 	"bufio"
@@ -83,7 +88,13 @@ func runConc(line string, t []string) string {
 	if len(t) == 0 {
 		return "bad-op"
 	}
+	if concWedged && !(t[0] == "seq" && len(t) > 1 && (t[1] == "reset" || t[1] == "acct" || t[1] == "end" || t[1] == "slowdb")) && t[0] != "cgf" {
+		// a batch did not return (deadlock): whatever is sent now may block for ever (conc_cgf.go)
+		return "skipped"
+	}
 	switch t[0] {
+	case "cgf":
+		return runCgf(t[1:]) // conc_cgf.go
 	case "seq":
 		if len(t) < 2 {
 			return "bad-op"
@@ -122,6 +133,7 @@ func runConc(line string, t []string) string {
 		case <-fin:
 		case <-time.After(20 * time.Second):
 			concQueue = nil
+			concWedged = true
 			return fmt.Sprintf("done=0 n=%d", k)
 		}
 		var rs []string
@@ -130,7 +142,8 @@ func runConc(line string, t []string) string {
 			rs = append(rs, strings.ReplaceAll(respSummary(w), " ", ","))
 			if w.Code == 201 {
 				if l := w.Header().Get("Location"); l != "" {
-					if j := strings.LastIndex(l, "/chargingdata/"); j >= 0 {
+					// (a one-time event acknowledges no session: the reference part of its Location is empty)
+					if j := strings.LastIndex(l, "/chargingdata/"); j >= 0 && l[j+len("/chargingdata/"):] != "" {
 						concAcked = append(concAcked, concReq{path: l[j+len("/chargingdata/"):], supi: concQueue[i].supi})
 					}
 				}
@@ -225,6 +238,8 @@ func runConc(line string, t []string) string {
 		}
 		cleanupCdrFiles()
 		return fmt.Sprintf("done=1 n=%d created=%d lsn=%d:%d:%d:%s", n*rounds, ok, total, lo, hi, strings.Join(ds, ","))
+	case "hammer":
+		return runHammer(t[1:]) // conc_hammer.go
 	case "fu":
 		var out []string
 		for i, a := range concAcked {
@@ -250,7 +265,73 @@ func runConc(line string, t []string) string {
 	return "bad-op"
 }
 
+// the hammer lines of a family: which roles run together, how many rounds each foreground role makes
+var hammerFamilies = map[string][]string{
+	// references: creates refused by OpenCDR (of another / of the same subscriber) next to pairs of sessions
+	"hammer-refs": {"XSS", "XXSS", "xSS", "XxSC"},
+	// session-map lookups: requests naming unknown references next to creates / releases / updates of the same subscriber
+	"hammer-lookup": {"UCC", "RCC", "URVC", "URSC"},
+	// one-time events next to creates and releases of the same subscriber (no role that sends updates next to E: see
+	// pending_findings/C09-event-close)
+	"hammer-events": {"ECC", "EEC", "ExCC"},
+}
+
+func genHammers(o genOpts, w *bufio.Writer, families ...string) {
+	r := &rng{s: o.seed ^ 0x68616d}
+	rounds := 40
+	if o.tier == "thorough" {
+		rounds = 150
+	}
+	k := 0
+	for _, f := range families {
+		for _, roles := range hammerFamilies[f] {
+			k++
+			n := rounds
+			if f == "hammer-refs" {
+				n = rounds * 3 / 2 // (atomic counters: nothing for the race detector to see, the collision has to happen)
+			}
+			fmt.Fprintf(w, "conc hammer %s %s %d\n", roles, hexOf([]byte(fmt.Sprintf("imsi-20897%04d%03d%03d", o.seed%10000, k, r.intn(1000)))), n)
+		}
+	}
+}
+
+// CDR transfer to the billing domain (cgf enabled): requests while the FTP control connection is up, after the billing domain
+// has dropped it, and while the billing domain is unreachable.  One request at a time (deadline of a batch: 20 s): what is
+// looked for is a transfer that blocks its request, and with it every later one.  A stream of its own (-mode cgf), run on the
+// build WITHOUT the race detector: see pending_findings/C09-cgf-unlocked-conn.
+func genCgf(o genOpts, w *bufio.Writer) {
+	r := &rng{s: o.seed ^ 0x636766}
+	lsn := 100000
+	one := func(k int, phase string) {
+		supi := fmt.Sprintf("imsi-20898%04d%03d%03d", o.seed%10000, k, r.intn(1000))
+		fmt.Fprintf(w, "conc seq reset\n")
+		fmt.Fprintf(w, "conc seq acct %s 1 %s %s\n", hexOf([]byte(supi)), hexOf([]byte("100000")), hexOf([]byte("2")))
+		fmt.Fprintf(w, "conc cgf %s\n", phase)
+		fmt.Fprintf(w, "conc par create %s\n", fmtReq(supi, "smf", 100, 0, 0, 0, nil, nil))
+		fmt.Fprintf(w, "conc go\n")
+		fmt.Fprintf(w, "conc fu\n")
+	}
+	fmt.Fprintf(w, "conc cgf up\n")
+	k := 0
+	for _, phase := range []string{"up", "drop", "up", "down", "up", "drop"} {
+		k++
+		one(k, phase)
+		_ = lsn
+	}
+	fmt.Fprintf(w, "conc cgf off\n")
+}
+
 func genConc(o genOpts, w *bufio.Writer) {
+	if o.mode == "cgf" {
+		genCgf(o, w)
+		fmt.Fprintf(w, "conc seq end\n")
+		return
+	}
+	if _, ok := hammerFamilies[o.mode]; ok {
+		genHammers(o, w, o.mode)
+		fmt.Fprintf(w, "conc seq end\n")
+		return
+	}
 	r := &rng{s: o.seed}
 	lsn := 0
 	acct := func(supi string, rg, bal, cost int) {
@@ -270,7 +351,11 @@ func genConc(o genOpts, w *bufio.Writer) {
 		supi := fmt.Sprintf("imsi-20893%04d%06d", o.seed%10000, i)
 		cost := r.pick(1, 2, 3)
 		counter := 0
-		scen := r.intn(5)
+		scen := r.intn(6)
+		if o.mode == "events" {
+			scen = 5
+			k = r.pick(3, 4, 5)
+		}
 		if o.mode == "newsupi" {
 			scen = 2
 			k = r.pick(4, 6, 8)
@@ -287,10 +372,15 @@ func genConc(o genOpts, w *bufio.Writer) {
 			sid := supi + "smf-0"
 			fmt.Fprintf(w, "conc seq update %s %s\n", hexOf([]byte(sid)), fmtReq(supi, "smf", 100, 1, 0, 0, nil, []string{usage(1, 100, 0)}))
 			rel := r.intn(k)
+			// the consumer repeats the release (it got no answer yet): the copy served second names a stale reference
+			rel2 := -1
+			if r.chance(50) {
+				rel2 = (rel + 1 + r.intn(k-1)) % k
+			}
 			// the account store answers slowly, so that requests queue behind the one in progress
 			fmt.Fprintf(w, "conc seq slowdb %d\n", r.pick(5, 20, 40))
 			for j := 0; j < k; j++ {
-				if j == rel {
+				if j == rel || j == rel2 {
 					fmt.Fprintf(w, "conc par release %s %s\n", hexOf([]byte(sid)), fmtReq(supi, "smf", 100, 2+j, 0, 0, nil, []string{usage(1, 0, r.pick(5, 20))}))
 				} else {
 					fmt.Fprintf(w, "conc par update %s %s\n", hexOf([]byte(sid)), fmtReq(supi, "smf", 100, 2+j, 0, 0, nil, []string{usage(1, r.pick(0, 100), r.pick(5, 25))}))
@@ -326,6 +416,31 @@ func genConc(o genOpts, w *bufio.Writer) {
 					fmt.Fprintf(w, "conc par update %s %s\n", hexOf([]byte(sids[0])), fmtReq(supi, "smf", 100, 2+j, 0, 0, nil, []string{usage(1, 100, r.pick(5, 25))}))
 				}
 			}
+		case 5:
+			// one subscriber with an open session: one-time events (with and without usage), further session creates and
+			// the release of the open session together.  (No update in these batches: see pending_findings/C09-event-close.)
+			acct(supi, 1, 100000, cost)
+			fmt.Fprintf(w, "conc seq create %s\n", fmtReq(supi, "smf", 100, 0, 0, 0, nil, nil))
+			sid := supi + "smf-0"
+			fmt.Fprintf(w, "conc seq update %s %s\n", hexOf([]byte(sid)), fmtReq(supi, "smf", 100, 1, 0, 0, nil, []string{usage(1, 100, 0)}))
+			if r.chance(50) {
+				fmt.Fprintf(w, "conc seq create %s\n", fmtReq(supi, "smf", 150, 0, 0, 1, nil, nil))
+			}
+			relAt := r.intn(k)
+			for j := 0; j < k; j++ {
+				switch {
+				case j == relAt:
+					fmt.Fprintf(w, "conc par release %s %s\n", hexOf([]byte(sid)), fmtReq(supi, "smf", 100, 9, 0, 0, nil, []string{usage(1, 0, r.pick(5, 20))}))
+				case r.chance(65):
+					var us []string
+					if r.chance(50) {
+						us = []string{usage(1, 0, r.pick(1, 7))}
+					}
+					fmt.Fprintf(w, "conc par create %s\n", fmtReq(supi, r.pickStr("smf", "nef"), 200+j, 0, 0, 1, nil, us))
+				default:
+					fmt.Fprintf(w, "conc par create %s\n", fmtReq(supi, "smf", 100+j, 0, 0, 0, nil, nil))
+				}
+			}
 		case 2:
 			// k creates for the same new subscriber together
 			acct(supi, 1, 100000, cost)
@@ -357,6 +472,9 @@ func genConc(o genOpts, w *bufio.Writer) {
 		}
 		fmt.Fprintf(w, "conc go\n")
 		fmt.Fprintf(w, "conc fu\n")
+	}
+	if o.mode == "" {
+		genHammers(o, w, "hammer-events", "hammer-lookup", "hammer-refs")
 	}
 	if o.mode == "" {
 		// a consumer that is not passive during a recharge notification; bursts of creates for new subscribers
